@@ -239,6 +239,9 @@ class Run(RunBase):
         if k == "add_lanelet":
             return op["key"] in self.pool and self.pool[op["key"]]["id"] not in self._net_ids() and \
                 not any(o.obstacle_id == self.pool[op["key"]]["id"] for o in sc.obstacles)
+        if k == "add_from_network":
+            return all(x in self.pool for x in op["keys"]) and len(op["keys"]) >= 1 and \
+                not any(o.obstacle_id in [self.pool[x]["id"] for x in op["keys"]] for o in sc.obstacles)
         if k == "add_batch":
             ids = [self.pool[x]["id"] for x in op["keys"] if x in self.pool]
             return len(ids) == len(op["keys"]) >= 2 and len(set(ids)) == len(ids) and \
@@ -657,6 +660,16 @@ class Run(RunBase):
         self._after([("network", None)])
         return r
 
+    def _op_add_from_network(self, op):
+        """add_lanelets_from_network: lanelets whose id is already present are refused (possibly in the middle of the
+        batch); whatever was taken over has to be found by the lookups afterwards."""
+        other = LaneletNetwork.create_from_lanelet_list([build.build_lanelet(self.pool[k]) for k in op["keys"]])
+        r = self._try("add_lanelets_from_network", lambda: self.sc.lanelet_network.add_lanelets_from_network(other))
+        if any(self.pool[k]["id"] in self._net_ids() for k in op["keys"]):
+            self.probe("merge-with-id-clash")
+        self._after([("network", None)])
+        return r
+
     def _op_add_batch(self, op):
         """The documented bulk pattern: add several lanelets with rtree=False, the last one with rtree=True (which
         has to index ALL of them)."""
@@ -683,10 +696,26 @@ class Run(RunBase):
 
     def _op_set_cycle(self, op):
         lt = self.sc.lanelet_network.find_traffic_light_by_id(op["id"])
-
-        def f():
-            lt.traffic_light_cycle.cycle_elements = [TrafficLightCycleElement(build.TrafficLightState[n], d)
-                                                     for n, d in op["cycle"]]
+        variant = op.get("variant", "new")
+        if variant == "new":
+            def f():
+                lt.traffic_light_cycle.cycle_elements = [TrafficLightCycleElement(build.TrafficLightState[n], d)
+                                                         for n, d in op["cycle"]]
+        else:
+            # the caller edits the elements it got from the getter and hands them to the setter again
+            # (the same list object, or a new list of the same element objects)
+            def f():
+                c = lt.traffic_light_cycle
+                els = c.cycle_elements
+                j = op["j"] % len(els)
+                if variant == "edit_duration":
+                    els[j].duration = els[j].duration + op["delta"]
+                elif variant == "drop" and len(els) > 1:
+                    del els[j]
+                else:
+                    els.append(TrafficLightCycleElement(els[j].state, op["delta"]))
+                c.cycle_elements = els if op.get("same_list") else list(els)
+            self.probe("cycle-edited-in-place-and-reassigned")
         r = self._try("cycle_elements=", f)
         self._after([("light", op["id"])])
         return r
@@ -893,6 +922,11 @@ def _mutator(rng, run, cfg):
         elif k == "add_lanelet":
             c = [key for key in sorted(run.pool) if run.enabled({"op": "add_lanelet", "key": key})]
             yield {"op": k, "key": rng.pick(c), "level": rng.pick(["scenario", "network"])} if c else None
+        elif k == "add_from_network":
+            keys = sorted(run.pool)
+            chosen = rng.sample(keys, rng.randint(1, len(keys)))
+            op = {"op": k, "keys": chosen}
+            yield op if run.enabled(op) else None
         elif k == "add_batch":
             c = [key for key in sorted(run.pool) if run.enabled({"op": "add_lanelet", "key": key})]
             yield {"op": k, "keys": rng.sample(c, rng.randint(2, len(c)))} if len(c) >= 2 else None
@@ -921,6 +955,10 @@ def _mutator(rng, run, cfg):
                     cyc = cur + [list(rng.pick(cur))]  # one phase repeated
                 elif r < 0.65:
                     cyc = [[n, d + 1] for n, d in cur]  # same states, other durations
+                elif r < 0.85:
+                    yield {"op": k, "id": lid, "variant": rng.choice(["edit_duration", "drop", "append"]),
+                           "j": rng.randrange(8), "delta": rng.randint(1, 4), "same_list": rng.chance(0.5)}
+                    continue
                 yield {"op": k, "id": lid, "cycle": cyc}
             elif k == "set_offset":
                 yield {"op": k, "id": rng.pick(lts), "offset": rng.randint(0, 8)}
@@ -940,7 +978,7 @@ def _restarter(rng, run, cfg):
 
 QUERIES = ["q_occ", "q_state", "q_scn_occ", "q_scn_states", "q_poly", "q_dist", "q_pos", "q_shape", "q_light", "sweep"]
 MUTATORS = ["tr_scenario", "tr_network", "tr_obstacle", "tr_prediction", "tr_lanelet", "set_prediction",
-            "update_prediction", "set_trajectory", "set_shape", "update_initial", "set_initial", "add_lanelet", "add_batch",
+            "update_prediction", "set_trajectory", "set_shape", "update_initial", "set_initial", "add_lanelet", "add_batch", "add_from_network",
             "remove_lanelet",
             "set_cycle", "set_offset", "replace_cycle"]
 
@@ -951,7 +989,8 @@ class C11(Property):
     tiers = {"quick": {"runs": 1600, "wall": 240, "chunk": 10}, "thorough": {"runs": 60000, "wall": 1700, "chunk": 25}}
     expected_probes = ["restart-with-warm-cache", "history-truncation-hit", "fork-keeps-original",
                        "continued-on-the-other-copy", "trajectory-replaced-by-shifted-copy",
-                       "trajectory-object-transformed-and-reassigned",
+                       "trajectory-object-transformed-and-reassigned", "cycle-edited-in-place-and-reassigned",
+                       "merge-with-id-clash",
                        "cell:occupancy_at_time<-translate_rotate[scenario]",
                        "cell:occupancy_at_time<-translate_rotate[obstacle]",
                        "cell:occupancy_at_time<-translate_rotate[prediction]",
@@ -998,7 +1037,7 @@ class C11(Property):
         obstacles = []
         for _ in range(rng.randint(1, 4)):
             role = rng.weighted(["static", "dynamic", "dynamic_nopred", "dynamic_set", "phantom"], [2, 5, 1, 1, 1])
-            obstacles.append(gen.gen_obstacle(rng, ids.take(), net, role=role))
+            obstacles.append(gen.gen_obstacle(rng, ids.take(), net, role=role, interval_steps=0.3))
         pool_net = gen.gen_network(rng, rows=1, cols=rng.randint(1, 3), ids=ids, signs=False, lights=False,
                                    intersections=False, stop_lines=False, overlap=False, extra_links=False)
         pool = {}
